@@ -14,39 +14,97 @@ namespace Minicbor.C11
 def quiet16 (h : Nat) : Nat :=
   if h / 1024 % 32 = 31 ∧ h % 1024 ≠ 0 ∧ h % 1024 < 512 then h + 512 else h
 
-def allBelow : Nat → (Nat → Bool) → Bool
+/-- `p` holds on `lo, lo+1, …, lo+n-1`. -/
+def allFrom (lo : Nat) : Nat → (Nat → Bool) → Bool
   | 0, _ => true
-  | n + 1, p => p n && allBelow n p
+  | n + 1, p => p (lo + n) && allFrom lo n p
 
-theorem allBelow_spec {n : Nat} {p : Nat → Bool} (h : allBelow n p = true) :
-    ∀ i, i < n → p i = true := by
+theorem allFrom_spec {lo n : Nat} {p : Nat → Bool} (h : allFrom lo n p = true) :
+    ∀ i, lo ≤ i → i < lo + n → p i = true := by
   induction n with
-  | zero => intro i hi; omega
+  | zero => intro i h1 h2; omega
   | succ n ih =>
-    simp only [allBelow, Bool.and_eq_true] at h
-    intro i hi
-    by_cases hin : i = n
+    simp only [allFrom, Bool.and_eq_true] at h
+    intro i h1 h2
+    by_cases hin : i = lo + n
     · subst hin; exact h.1
-    · exact ih h.2 i (by omega)
+    · exact ih h.2 i h1 (by omega)
 
-theorem half_table :
-    allBelow 65536 (fun h => decide (f32ToF16 (f16ToF32 h) = quiet16 h ∧
-      f16ToF32 (quiet16 h) = f16ToF32 h ∧ quiet16 h < 65536)) = true := by
-  decide +kernel
+def halfOk (h : Nat) : Bool := decide (f32ToF16 (f16ToF32 h) = quiet16 h)
+
+/-! the complete table, evaluated by the kernel in 16 slices of 4096 patterns (one slice per
+    declaration keeps the kernel's memory below 2 GB instead of 7) -/
+theorem half_table_0 : allFrom 0 4096 halfOk = true := by decide +kernel
+theorem half_table_1 : allFrom 4096 4096 halfOk = true := by decide +kernel
+theorem half_table_2 : allFrom 8192 4096 halfOk = true := by decide +kernel
+theorem half_table_3 : allFrom 12288 4096 halfOk = true := by decide +kernel
+theorem half_table_4 : allFrom 16384 4096 halfOk = true := by decide +kernel
+theorem half_table_5 : allFrom 20480 4096 halfOk = true := by decide +kernel
+theorem half_table_6 : allFrom 24576 4096 halfOk = true := by decide +kernel
+theorem half_table_7 : allFrom 28672 4096 halfOk = true := by decide +kernel
+theorem half_table_8 : allFrom 32768 4096 halfOk = true := by decide +kernel
+theorem half_table_9 : allFrom 36864 4096 halfOk = true := by decide +kernel
+theorem half_table_10 : allFrom 40960 4096 halfOk = true := by decide +kernel
+theorem half_table_11 : allFrom 45056 4096 halfOk = true := by decide +kernel
+theorem half_table_12 : allFrom 49152 4096 halfOk = true := by decide +kernel
+theorem half_table_13 : allFrom 53248 4096 halfOk = true := by decide +kernel
+theorem half_table_14 : allFrom 57344 4096 halfOk = true := by decide +kernel
+theorem half_table_15 : allFrom 61440 4096 halfOk = true := by decide +kernel
 
 /-- `from_f32 (to_f32 h) = h` up to quieting of signalling NaNs, for all 65 536 patterns. -/
 theorem half_roundtrip (h : Nat) (hlt : h < 65536) : f32ToF16 (f16ToF32 h) = quiet16 h := by
-  have := allBelow_spec half_table h hlt
-  simp only [decide_eq_true_eq] at this; exact this.1
+  have key : halfOk h = true := by
+    by_cases c0 : h < 4096
+    · exact allFrom_spec half_table_0 h (by omega) (by omega)
+    by_cases c1 : h < 8192
+    · exact allFrom_spec half_table_1 h (by omega) (by omega)
+    by_cases c2 : h < 12288
+    · exact allFrom_spec half_table_2 h (by omega) (by omega)
+    by_cases c3 : h < 16384
+    · exact allFrom_spec half_table_3 h (by omega) (by omega)
+    by_cases c4 : h < 20480
+    · exact allFrom_spec half_table_4 h (by omega) (by omega)
+    by_cases c5 : h < 24576
+    · exact allFrom_spec half_table_5 h (by omega) (by omega)
+    by_cases c6 : h < 28672
+    · exact allFrom_spec half_table_6 h (by omega) (by omega)
+    by_cases c7 : h < 32768
+    · exact allFrom_spec half_table_7 h (by omega) (by omega)
+    by_cases c8 : h < 36864
+    · exact allFrom_spec half_table_8 h (by omega) (by omega)
+    by_cases c9 : h < 40960
+    · exact allFrom_spec half_table_9 h (by omega) (by omega)
+    by_cases c10 : h < 45056
+    · exact allFrom_spec half_table_10 h (by omega) (by omega)
+    by_cases c11 : h < 49152
+    · exact allFrom_spec half_table_11 h (by omega) (by omega)
+    by_cases c12 : h < 53248
+    · exact allFrom_spec half_table_12 h (by omega) (by omega)
+    by_cases c13 : h < 57344
+    · exact allFrom_spec half_table_13 h (by omega) (by omega)
+    by_cases c14 : h < 61440
+    · exact allFrom_spec half_table_14 h (by omega) (by omega)
+    exact allFrom_spec half_table_15 h (by omega) (by omega)
+  simpa only [halfOk, decide_eq_true_eq] using key
 
 /-- quieting does not change what the pattern converts to. -/
-theorem f16ToF32_quiet (h : Nat) (hlt : h < 65536) : f16ToF32 (quiet16 h) = f16ToF32 h := by
-  have := allBelow_spec half_table h hlt
-  simp only [decide_eq_true_eq] at this; exact this.2.1
+theorem f16ToF32_quiet (h : Nat) (_hlt : h < 65536) : f16ToF32 (quiet16 h) = f16ToF32 h := by
+  unfold quiet16
+  split
+  · rename_i hs
+    obtain ⟨h1, h2, h3⟩ := hs
+    have e1 : (h + 512) / 32768 = h / 32768 := by omega
+    have e2 : (h + 512) / 1024 % 32 = 31 := by omega
+    have e3 : (h + 512) % 1024 = h % 1024 + 512 := by omega
+    unfold f16ToF32
+    simp only [e1, e2, e3, h1]
+    have h4 : ¬ (h % 1024 ≥ 512) := by omega
+    simp [h2, h4]
+    omega
+  · rfl
 
 theorem quiet16_lt (h : Nat) (hlt : h < 65536) : quiet16 h < 65536 := by
-  have := allBelow_spec half_table h hlt
-  simp only [decide_eq_true_eq] at this; exact this.2.2
+  unfold quiet16; split <;> omega
 
 /-- outside the signalling NaNs nothing changes. -/
 theorem quiet16_of_not_snan (h : Nat) (hn : ¬ (h / 1024 % 32 = 31 ∧ h % 1024 ≠ 0 ∧ h % 1024 < 512)) :
